@@ -8,11 +8,12 @@ git -C /repo worktree add --detach -f "$W/repo" HEAD >/dev/null 2>&1 || { echo "
 if [ "$1" = "-e" ]; then
     sed -i "$2" "$W/repo/$3" || exit 9; shift 3
 else
-    git -C "$W/repo" apply "$1" || { echo "patch failed"; git -C /repo worktree remove --force "$W/repo"; rm -rf "$W"; exit 9; }; shift
+    P=$(readlink -f "$1")
+    git -C "$W/repo" apply "$P" || { echo "patch failed"; git -C /repo worktree remove --force "$W/repo"; rm -rf "$W"; exit 9; }; shift
 fi
 [ "$1" = "--" ] && shift
 git -C "$W/repo" diff --stat | tail -1
-VERIF_REPO="$W/repo" VERIF_BUILD="$W/build" "$@"
+VERIF_REPO="$W/repo" VERIF_BUILD="$W/build" VERIF_EVIDENCE_DIR="$W/evidence" VERIF_REPLAY_DIR="${VERIF_REPLAY_DIR:-/verif/replays}" "$@"
 rc=$?
 git -C /repo worktree remove --force "$W/repo"; rm -rf "$W"
 exit $rc
